@@ -14,7 +14,7 @@ def symbolic_graph(ex, pkgs, extra, edge):
     """branch on the import bits -> concrete import lists for this path"""
     imports = {}
     for p in pkgs:
-        imports[p] = [q for q in pkgs + extra if p != q and ex.branch_bool(edge[(p, q)])]
+        imports[p] = [q for q in pkgs + extra if (p, q) in edge and ex.branch_bool(edge[(p, q)])]
     return imports
 
 def unit_value(W, name, imps):
@@ -89,10 +89,10 @@ def replay_discovery(imports, runs=40):
         shutil.rmtree(d, ignore_errors=True)
 
 # ----------------------------------------------------------------------------- C16: topological sort
-def ob_topo(r, tier, seed, pkgs):
+def ob_topo(r, tier, seed, pkgs, extra=('Zmissing',), self_imports=True):
     W = e2.fresh_world(CRATES); W.hash_order = 'symbolic'
-    names = ['Main'] + pkgs; extra = ['Zmissing']
-    edge = {(p, q): z3.Bool('e_%s_%s' % (p, q)) for p in names for q in names + extra if p != q}
+    names = ['Main'] + pkgs; extra = list(extra)
+    edge = {(p, q): z3.Bool('e_%s_%s' % (p, q)) for p in names for q in names + extra if p != q or self_imports}
     def ov(f, g):
         if g in ('compile_error', 'pipeline::compile_error'):
             def m_compile_error(ex, f, a): return Opaque('CompilationError')
@@ -100,7 +100,7 @@ def ob_topo(r, tier, seed, pkgs):
         return None
     W.overrides = [ov]; W.stubs['compile_error'] = lambda ex, a: Opaque('CompilationError')
     PG = W.tt.find_adt(['pipeline', 'packages', 'PackageGraph'], 'compiler')
-    r.bounds = 'all %d import graphs over packages %s plus one missing import target; every iteration order of the std hash containers' % (2 ** len(edge), names)
+    r.bounds = 'all %d import graphs over packages %s plus missing import targets %s%s; every iteration order of the std hash containers' % (2 ** len(edge), names, extra, ' and self-imports' if self_imports else '')
     r.assumptions = ['compile_error (message formatting) stubbed', 'oracle: reference DFS - Err iff a cycle or a missing package is reachable from some package; Ok order must be a complete topological order']
     def entry(ex):
         imports = symbolic_graph(ex, names, extra, edge)
@@ -112,7 +112,7 @@ def ob_topo(r, tier, seed, pkgs):
         return imports, (tuple(sval(x) for x in res.fields[0].items) if res.idx == 0 else None)
     res = e2.explore(r, W, entry, [])
     def oracle(imports):
-        if any('Zmissing' in v for v in imports.values()): return False
+        if any(x in v for v in imports.values() for x in extra): return False
         seen, stack = set(), set()
         def dfs(p):
             if p in stack: return False
